@@ -230,13 +230,18 @@ func (n *networkTopology) replicaMap(tokenRing *tokenRing) tokenRingReplicas {
 		}
 
 		replicas := make([]*HostInfo, 0, totalRF)
+		// a node that owns several tokens (vnodes) is met several times on the walk, consider it once
+		seenHosts := make(map[*HostInfo]struct{}, totalRF)
 		for j := 0; j < len(tokens) && (len(replicas) < totalRF && !n.haveRF(replicasInDC)); j++ {
-			// TODO: ensure we dont add the same host twice
 			p := i + j
 			if p >= len(tokens) {
 				p -= len(tokens)
 			}
 			h := tokens[p].host
+			if _, ok := seenHosts[h]; ok {
+				continue
+			}
+			seenHosts[h] = struct{}{}
 
 			dc := h.DataCenter()
 			rack := h.Rack()
